@@ -314,8 +314,9 @@ pub fn oracle_c10(w: &World, so: &StepObs, out: &mut StepOut) {
         out.tag("c10:ok-tx-with-foreign-positions");
     }
     // queries never change state: every observation query of the harness plus the remaining query
-    // variants of the engine and the insurance fund run on the post-state; the store must be unchanged
-    {
+    // variants of the engine and the insurance fund run on the post-state; the store must be unchanged.
+    // Run after every step that changed the store: each reached state is the post-state of such a step.
+    if !so.store_unchanged() {
         use margined_perp::margined_engine::{PnlCalcOption, QueryMsg as EQ};
         use margined_perp::margined_insurance_fund::QueryMsg as IQ;
         let before = w.store.0.borrow().clone();
